@@ -32,7 +32,8 @@ theorem rd_quant (env : SEnv) (sc : List Binding) (q : String) (hq : q = "forall
 theorem agree_quant (env : SEnv) (ρ : List (String × Sym)) (q : String) (hq : q = "forall" ∨ q = "exists")
     (vs : List Sexp) (body : Sexp) (hv : fragVars env ρ vs = true) (hB : AgreeAt env ρ body) :
     AgreeAt env ρ (.list [.atom q, .list vs, body]) := by
-  intro sc Γ lone hc hm u τ h
+  intro sc Γ lone hc hm hro u τ h
+  rw [RotOK_quant env sc q hq, rotQuant_eq] at hro
   rw [rd_quant env sc q hq, rdQuant] at h
   cases hsv : rdSortedVars env vs with
   | error e => simp [hsv] at h
@@ -55,7 +56,8 @@ theorem agree_quant (env : SEnv) (ρ : List (String × Sym)) (q : String) (hq : 
             simp only [Except.ok.injEq, Prod.mk.injEq] at h
             obtain ⟨rfl, rfl⟩ := h
             obtain ⟨Γ', hqb, hc', hm'⟩ := quantBinds_agree env ρ vs hv sc Γ [] hc hm syms hsv
-            obtain ⟨σ', hbody, hm'', htok⟩ := hB _ Γ' false hc' hm' b .bool hb
+            simp only [hsv] at hro
+            obtain ⟨σ', hbody, hm'', htok⟩ := hB _ Γ' false hc' hm' hro b .bool hb
             have hvne : ∃ v vs', vs = v :: vs' := by
               cases vs with
               | nil => simp [rdSortedVars] at hsv; subst hsv; simp at hne
